@@ -242,20 +242,65 @@ func isRollbackOfOwnCreate(p *Prog, m mutation) bool {
 // checkCloser: must-follow of one closer after `call` in fn; lifts to callers
 // when the function returns without it and the path is parameter-rooted.
 func (p *Prog) checkCloser(fn *ssa.Function, call ssa.CallInstruction, cl closerSpec, readers map[*ssa.Function]bool, isDirCacheLoad func(ssa.Value) bool, isEntry, reach map[*ssa.Function]bool, depth int) closerResult {
+	var closesIn func(ci ssa.CallInstruction, want *pexpr, d int) bool
+	closesIn = func(ci ssa.CallInstruction, want *pexpr, d int) bool {
+		f := staticCallee(ci)
+		if f == nil {
+			return false
+		}
+		args := ci.Common().Args
+		if qualFn(f) == cl.Callee {
+			return len(args) >= 2 && mkExpr(args[1]).equal(want)
+		}
+		// helper summary: an in-package callee that performs the invalidation of a
+		// parameter-rooted path on all of its paths
+		if d >= 2 || p.byName[fnKey(f)] != f || len(f.Blocks) == 0 {
+			return false
+		}
+		m := map[ssa.Value]*pexpr{}
+		for i, prm := range f.Params {
+			if i < len(args) {
+				m[prm] = mkExpr(args[i])
+			}
+		}
+		inner := func(in ssa.Instruction) bool {
+			c2, ok := in.(ssa.CallInstruction)
+			if !ok {
+				return false
+			}
+			f2 := staticCallee(c2)
+			if f2 == nil {
+				return false
+			}
+			a2 := c2.Common().Args
+			if qualFn(f2) == cl.Callee {
+				return len(a2) >= 2 && mkExpr(a2[1]).subst(m).equal(want)
+			}
+			return false
+		}
+		has := false
+		for _, b := range f.Blocks {
+			for _, in := range b.Instrs {
+				if inner(in) {
+					has = true
+				}
+			}
+		}
+		if !has {
+			return false
+		}
+		sp := followSpec{Fn: f, Start: []*ssa.BasicBlock{f.Blocks[0]}, Closes: inner}
+		if cl.NilOK {
+			sp.StopEdge = nilFieldStop(isDirCacheLoad)
+		}
+		return follow(sp).OK
+	}
 	closes := func(in ssa.Instruction) bool {
 		ci, ok := in.(ssa.CallInstruction)
 		if !ok {
 			return false
 		}
-		f := staticCallee(ci)
-		if f == nil || qualFn(f) != cl.Callee {
-			return false
-		}
-		args := ci.Common().Args
-		if len(args) < 2 {
-			return false
-		}
-		return mkExpr(args[1]).equal(cl.Arg)
+		return closesIn(ci, cl.Arg, 0)
 	}
 	bad := func(in ssa.Instruction) bool {
 		ci, ok := in.(ssa.CallInstruction)
@@ -358,6 +403,39 @@ func (p *Prog) backendFaultEdge(self ssa.CallInstruction) func(from, to *ssa.Bas
 			}
 			if all {
 				return true
+			}
+			// error kept in a local cell (`err` captured by a deferred closure): only the
+			// stores that can execute after the mutation succeeded matter — the mutation's
+			// own error is nil on these paths
+			if cell := cellOf(v); cell != nil {
+				var after map[*ssa.BasicBlock]bool
+				if succ, _, ok := errSuccessEdge(self); ok {
+					after = reachAvoiding([]*ssa.BasicBlock{succ}, nil, nil)
+				}
+				n, okAll := 0, true
+				forEachUseOfCell(cell, func(in ssa.Instruction, how string, c ssa.CallInstruction, argIdx int) {
+					if how != "store" || after == nil || !after[in.Block()] || in.Parent() != self.Parent() {
+						return
+					}
+					st := in.(*ssa.Store)
+					if st.Block() == self.Block() && instrIndex(st) <= instrIndex(self)+3 {
+						// the store of the mutation's own result right after the call
+						for _, o := range fl.Origins(st.Val) {
+							if o.Call == self {
+								return
+							}
+						}
+					}
+					n++
+					for _, o := range fl.Origins(st.Val) {
+						if !(o.Kind == "call" && o.Call != nil && o.Call != self && asBackendCall(o.Call) != nil) {
+							okAll = false
+						}
+					}
+				})
+				if n > 0 && okAll {
+					return true
+				}
 			}
 		}
 		return false
